@@ -63,6 +63,12 @@ Proof.
   destruct (Z.eqb s sz) eqn:E; [apply Z.eqb_eq in E; inversion H; subst; left; reflexivity|right; apply IH; exact H].
 Qed.
 
+Lemma role_lookup_in : forall named sz l n, role_lookup named sz l = Some n -> In (n, sz) l.
+Proof.
+  intros [b|] sz l n H; simpl in H; apply role_dim_in in H; [|exact H].
+  apply filter_In in H. tauto.
+Qed.
+
 Lemma roleinv_same : forall w w', RoleInv w -> incl (DN w) (DN w') -> w_bdims w' = w_bdims w -> w_sdims w' = w_sdims w -> RoleInv w'.
 Proof. intros w w' [H1 H2] Hi E1 E2. split; intros p Hp; [rewrite E1 in Hp|rewrite E2 in Hp]; apply Hi; auto. Qed.
 
@@ -101,15 +107,15 @@ Proof.
   intros b cdims cvar w extra w' H HI HR Hb Hc. destruct b as [bb|].
   2:{ simpl in H. inversion H; subst. splits; try assumption; try reflexivity; try apply ext_refl; apply HR. }
   destruct Hb as [Hbv Hbd]. unfold write_bounds in H.
-  destruct (alloc_role_dim true (opt_or (b_ncdim bb) ("bounds" +++ z_str (b_n bb))) (b_n bb) w) as [[bdim fr] w1] eqn:E1.
+  destruct (alloc_role_dim true (b_ncdim bb) (opt_or (b_ncdim bb) ("bounds" +++ z_str (b_n bb))) (b_n bb) w) as [[bdim fr] w1] eqn:E1.
   assert (Hbase : nice (opt_or (b_ncdim bb) ("bounds" +++ z_str (b_n bb)))).
   { apply nice_opt_or; [exact Hbd|apply nice_digits; apply nice_bounds_word]. }
   (* state after the dimension has been settled *)
   assert (S2 : exists w2, (if negb (mem bdim (map fst (w_dims w1))) then add_dim bdim (b_n bb) false w1 else w1) = w2 /\
             Inv0 w2 /\ RoleInv w2 /\ ext w w2 /\ w_axdim w2 = w_axdim w /\ w_axscalar w2 = w_axscalar w /\
             w_coords w2 = w_coords w /\ w_sdims w2 = w_sdims w /\ w_vars w2 = w_vars w).
-  { unfold alloc_role_dim in E1. destruct (role_dim (b_n bb) (w_bdims w)) as [n|] eqn:Er.
-    - inversion E1; subst. apply role_dim_in in Er. apply (proj1 HR) in Er. simpl in Er.
+  { unfold alloc_role_dim in E1. destruct (role_lookup (b_ncdim bb) (b_n bb) (w_bdims w)) as [n|] eqn:Er.
+    - inversion E1; subst. apply role_lookup_in in Er. apply (proj1 HR) in Er. simpl in Er.
       assert (Em : mem bdim (map fst (w_dims w1)) = true) by (apply mem_In; exact Er).
       rewrite Em. simpl. exists w1. splits; try assumption; try reflexivity; try apply ext_refl; apply HR.
     - destruct (alloc (opt_or (b_ncdim bb) ("bounds" +++ z_str (b_n bb))) w) as [n wa] eqn:Ea.
@@ -161,8 +167,8 @@ Proof.
   intros sl dims w vd w' H HI HR. destruct sl as [n|].
   2:{ simpl in H. inversion H; subst. splits; try assumption; try reflexivity; try apply ext_refl; try apply HR. intros; assumption. }
   unfold with_strlen in H.
-  destruct (alloc_role_dim false ("strlen" +++ z_str n) n w) as [[sdim fr] w1] eqn:E1.
-  unfold alloc_role_dim in E1. destruct (role_dim n (w_sdims w)) as [m|] eqn:Er.
+  destruct (alloc_role_dim false None ("strlen" +++ z_str n) n w) as [[sdim fr] w1] eqn:E1.
+  unfold alloc_role_dim, role_lookup in E1. destruct (role_dim n (w_sdims w)) as [m|] eqn:Er.
   - inversion E1; subst; clear E1. pose proof (role_dim_in _ _ _ Er) as Hin. pose proof (proj2 HR _ Hin) as Hd. simpl in Hd.
     assert (Em : mem sdim (map fst (w_dims w1)) = true) by (apply mem_In; exact Hd).
     rewrite Em in H. inversion H; subst. splits; try assumption; try reflexivity; try apply ext_refl; try apply HR.
